@@ -165,8 +165,19 @@ ConsumerComponents == Dfs(1, ConsumerSet)
 GenConsumerWithGridMeter ==
     LET NC == UNION {Dfs(gm, NonConsumerSet) : gm \in Succ(1)} IN
     [ok |-> TRUE, coef |-> VSub(Ind(Succ(1)), Ind(Primaries(NC))), fb |-> FbMap(NC)]
+\* since the repair (commit 47787ae): the consumer components are pushed (with their fallbacks) and
+\* every non-consumer chain found by dfs below each of them is subtracted (with its fallback)
+MergeFb(f, g) == [p \in Nodes |-> IF f[p] # <<>> THEN f[p] ELSE g[p]]   \* setdefault: first push wins
 GenConsumerWithoutGridMeter ==
+    IF ConsumerComponents = {} THEN ZeroFormula
+    ELSE LET NC == UNION {Dfs(c, NonConsumerSet) : c \in ConsumerComponents} IN
+         [ok |-> TRUE,
+          coef |-> VSub(Ind(Primaries(ConsumerComponents)), Ind(Primaries(NC))),
+          fb |-> MergeFb(FbMap(ConsumerComponents), FbMap(NC))]
+\* what the generator did BEFORE the repair: the consumer components only
+LegacyConsumerWithoutGridMeter ==
     IF ConsumerComponents = {} THEN ZeroFormula ELSE FromMapping(ConsumerComponents)
+LegacyConsumer == IF AreGridMeters THEN GenConsumerWithGridMeter ELSE LegacyConsumerWithoutGridMeter
 GenConsumer == IF AreGridMeters THEN GenConsumerWithGridMeter ELSE GenConsumerWithoutGridMeter
 
 (* _producer_power_formula.py *)
@@ -257,13 +268,16 @@ BalanceOK(Fg, Fc, Fp, Fb, Fe) ==
     (Fg.ok /\ Fc.ok /\ Fp.ok /\ Fb.ok /\ Fe.ok) =>
         Form(Fg.coef) = VAdd(VAdd(Form(Fc.coef), Form(Fp.coef)), VAdd(Form(Fb.coef), Form(Fe.coef)))
 
-(* Known deviation of the code (KF-C12-1): when the grid has a successor that is not a         *)
-(* non-dedicated meter ("no grid meter"), the consumer formula is the sum of the first           *)
-(* non-dedicated meters found from the grid, WITHOUT subtracting the devices below them.        *)
-(* Cause predicate over the transcription's own intermediate values.                            *)
-Dev_MixedMeterAsConsumerWithoutGridMeter ==
+(* Former defect (repaired in /repo by 47787ae, kept as a NAMED cause so that a regression is     *)
+(* recognised): with a grid successor that is not a non-dedicated meter ("no grid meter"), the    *)
+(* consumer formula was the sum of the first non-dedicated meters found from the grid WITHOUT    *)
+(* subtracting the devices below them (LegacyConsumer).  CauseMixedMeter is the graph condition   *)
+(* under which that is wrong; the deviation is "the cause holds and the consumer formula is the   *)
+(* legacy one".                                                                                   *)
+CauseMixedMeter ==
     /\ ~AreGridMeters
     /\ \E m \in ConsumerComponents : \E d \in Desc(m) : cat[d] \in DeviceCats
+Dev_MixedMeterAsConsumerWithoutGridMeter(Fcons) == CauseMixedMeter /\ Fcons = LegacyConsumer
 
 -----------------------------------------------------------------------------
 (* state machine                                                              *)
@@ -293,7 +307,7 @@ Init ==
     /\ parent = <<>> /\ pc = "topology" /\ gen = NoGen
 
 \* antecedent flags of the clauses, emitted with every graph (counted by the harness: vacuity)
-Flags == [gm |-> AreGridMeters, dev |-> Dev_MixedMeterAsConsumerWithoutGridMeter,
+Flags == [gm |-> AreGridMeters, dev |-> CauseMixedMeter,
           chpref |-> ChpRefusal,
           fb |-> \E nm \in Names \ {"chp", "ev"} : \E p \in Nodes : Generate(nm).fb[p] # <<>>,
           load |-> \E m \in Nodes : HasLoad(m),
@@ -351,7 +365,7 @@ GraphAccepted == Chosen => (ValidationOK /\ InDomain)
 RejectedIsOutside == pc = "rejected" => ~(ValidationOK /\ InDomain)
 
 GridTotal == Has("grid") => TotalOK("grid", gen["grid"])
-ConsumerTotal == Has("cons") => (TotalOK("cons", gen["cons"]) \/ Dev_MixedMeterAsConsumerWithoutGridMeter)
+ConsumerTotal == Has("cons") => (TotalOK("cons", gen["cons"]) \/ Dev_MixedMeterAsConsumerWithoutGridMeter(gen["cons"]))
 ProducerTotal == Has("prod") => TotalOK("prod", gen["prod"])
 BatteryTotal == Has("bat") => TotalOK("bat", gen["bat"])
 PVTotal == Has("pv") => TotalOK("pv", gen["pv"])
@@ -362,13 +376,17 @@ Generated == \A nm \in Names : Has(nm) => GeneratedOK(nm, gen[nm])
 FallbackEqualsPrimary == \A nm \in Names : Has(nm) => FallbackOK(gen[nm])
 Balance == pc = "done" =>
     \/ BalanceOK(gen["grid"], gen["cons"], gen["prod"], gen["bat"], gen["ev"])
-    \/ Dev_MixedMeterAsConsumerWithoutGridMeter
+    \/ Dev_MixedMeterAsConsumerWithoutGridMeter(gen["cons"])
 
-\* the deviation predicate is exact: where it fires the consumer formula (and hence the balance)
-\* IS wrong, so it cannot mask a different failure
-DevIsTight == (Chosen /\ Dev_MixedMeterAsConsumerWithoutGridMeter) =>
-    /\ Has("cons") => ~TotalOK("cons", gen["cons"])
-    /\ pc = "done" => ~BalanceOK(gen["grid"], gen["cons"], gen["prod"], gen["bat"], gen["ev"])
+\* the repaired transcription never shows the deviation (so the two invariants above are hard)
+NoDeviation == Has("cons") => ~Dev_MixedMeterAsConsumerWithoutGridMeter(gen["cons"])
+\* the named deviation is exact: the LEGACY formula is wrong exactly on the graphs where the cause
+\* holds (so a record carrying the deviation really is the old defect and masks nothing else), and
+\* the repair changed the formula on exactly those graphs
+LegacyWrongIffCause == Chosen => (CauseMixedMeter <=> ~TotalOK("cons", LegacyConsumer))
+LegacyBalanceWrongIffCause == pc = "done" =>
+    (CauseMixedMeter <=> ~BalanceOK(gen["grid"], LegacyConsumer, gen["prod"], gen["bat"], gen["ev"]))
+RepairOnlyWhereCause == Chosen => (CauseMixedMeter <=> GenConsumer # LegacyConsumer)
 \* the two ways of finding the PV components (pool ids / DFS from the grid) give one formula
 PVTwoWaysAgree == Has("pvd") => gen["pv"] = gen["pvd"]
 \* truth itself balances (sanity of the physics)
